@@ -326,6 +326,9 @@ def r02d(model: Model, rr: RuleResult):
     ecfg = cfg_of(efi)
     # every colour glyph is renumbered: the loop runs over all the caller's groups (the .notdef group, fixed at gid 0, aside)
     outer = [st for st in walk_body(efi) if isinstance(st, ast.For) and inner in st.body]
+    if len(outer) == 1 and isinstance(outer[0].iter, ast.Call) and norm(outer[0].iter.func) in ("tuple", "list") and len(outer[0].iter.args) == 1 \
+            and isinstance(outer[0].iter.args[0], (ast.ListComp, ast.GeneratorExp)):
+        outer[0].iter = outer[0].iter.args[0]  # tuple(<comprehension>) walks the same elements
     if len(outer) == 1 and isinstance(outer[0].iter, (ast.ListComp, ast.GeneratorExp)) and len(outer[0].iter.generators) == 1 and outer[0].iter.generators[0].ifs \
             and norm(outer[0].iter.elt) == norm(outer[0].iter.generators[0].target) and isinstance(outer[0].iter.generators[0].iter, ast.Name):
         flt = outer[0].iter.generators[0]
